@@ -180,7 +180,7 @@ class C20(Prop):
     # efuns that reach load_object through find_or_load_object with the caller as current_object are harness ops of their
     # own (`call,<path>` = call_other on a file name, `calla` = inside an array of targets, `tellroom` = tell_room on a file
     # name); the model knows ONE load: they are compared with (and judged as) its `load` op
-    ALIAS = re.compile(r"(?<![A-Za-z0-9_])(?:call|calla|tellroom),(?=/)")
+    ALIAS = re.compile(r"(?<![A-Za-z0-9_])(?:call|calla|tellroom|filter|preload),(?=/)")
     # `do <oid> later,<op>` / `hb,<op>`: the same op, started by the driver from a call_out / the object's heart_beat
     # (current_object = that object): compared with and judged as the plain op
     DRIVEN = re.compile(r"^(do \S+ )(?:later|hb),")
@@ -370,7 +370,9 @@ class C20(Prop):
                               "do u1a hb,load,/c20/u1/b", "do u1a later,clone,c1,/c20/bb/a", "do m hb,load,/c20/bb/b", "do m later,dest,m",
                               "do zz later,load,/c20/u1/c", "do u1a hb,export,u1b", "do u1b later,via,u1a,load,/c20/u2/a",
                               "do u1b hb,bind,u1a,load,/c20/u2/b", "script /c20/u2/c load,/c20/odd/a", "do u1a later,load,/c20/u2/c",
-                              "do u1a hb,reload,u1b", "do u1b hb,call,/c20/root/a"])
+                              "do u1a hb,reload,u1b", "do u1b hb,call,/c20/root/a", "do m preload,/c20/root/b", "do m preload,/c20/root/b",
+                              "do m preload,/c20/zz/nofile", "pol cf bb err", "do m preload,/c20/bb/c", "do u1a filter,/c20/odd/b",
+                              "do m filter,/c20/odd/b", "do m seteuid,i:0", "do m preload,/c20/odd/c"])
         # ---- round 5: the other efuns that load an object by name for their caller
         mk("load-by-other-efuns", ["do m load,/c20/u1/a", "do u1a call,/c20/u1/b", "do u1a calla,/c20/u1/b", "do u1a tellroom,/c20/u1/b",
                                    "do u1a seteuid,s:u1", "do u1a call,/c20/u1/b", "do u1a calla,/c20/u1/c", "do u1a tellroom,/c20/u2/a",
@@ -455,7 +457,7 @@ class C20(Prop):
                 kind = rng.weighted([("load", 8), ("clone", 5), ("seteuid", 6), ("seteuid0", 1), ("export", 2), ("bad", 1)])
                 tgt = rng.choice(later_paths) if later_paths and rng.chance(2, 3) else rng.choice(free)
                 if kind == "load":
-                    ops.append("%s,%s" % (rng.weighted([("load", 6), ("call", 1), ("calla", 1), ("tellroom", 1)]), tgt))
+                    ops.append("%s,%s" % (rng.weighted([("load", 6), ("call", 1), ("calla", 1), ("tellroom", 1), ("filter", 1)]), tgt))
                 elif kind == "clone":
                     nclone[0] += 1
                     ops.append("clone,c%d,%s" % (nclone[0], tgt))
@@ -585,7 +587,8 @@ class C20(Prop):
                 lines.append(DO(a, "seteuid,i:%d" % rng.choice([1, -1, 5, 0])))
             elif k == "load":
                 p = path()
-                lines.append(DO(a, "%s,%s" % (rng.weighted([("load", 6), ("call", 1), ("calla", 1), ("tellroom", 1)]), p)))
+                lines.append(DO(a, "%s,%s" % (rng.weighted([("load", 6), ("call", 1), ("calla", 1), ("tellroom", 1), ("filter", 1)] +
+                                                              ([("preload", 2)] if a == "m" and not caller else [])), p)))
                 created(a, p)
             elif k == "clone":
                 nclone[0] += 1
@@ -620,7 +623,7 @@ class C20(Prop):
         # one top-level op in eight is started by the driver: from a call_out / from the actor's heart_beat
         out = []
         for l in lines:
-            if l.startswith("do ") and rng.chance(1, 8):
+            if l.startswith("do ") and " preload," not in l and rng.chance(1, 8):
                 t = l.split(" ", 2)
                 l = "do %s %s,%s" % (t[1], rng.choice(["later", "hb"]), t[2])
             out.append(l)
